@@ -249,6 +249,13 @@ func TestStructured(t *testing.T) {
 						variants = append(variants, append(append([]byte{}, h...), make([]byte, int(l16))...))
 					}
 				}
+				// every tag the specifications (and the library) name, with values that are empty strings in their
+				// various spellings: a lone NUL, NULs only, NUL-terminated, NUL first
+				tg := append([]uint16{0x1401, 0x1402}, gen.NamedTags...)
+				tag := tg[rapid.IntRange(0, len(tg)-1).Draw(t, "nultag")]
+				for _, val := range [][]byte{{0}, {0, 0}, {0, 0, 0, 0}, {'A', 0}, {0, 'A'}, {}} {
+					variants = append(variants, ref.EncodeTriplets([]ref.Triplet{{Tag: tag, Val: val}}), ref.EncodeTriplets([]ref.Triplet{{Tag: 5, Val: []byte{1}}, {Tag: tag, Val: val}}))
+				}
 				for ti, tl := range variants {
 					m := append(append([]byte{}, img[:info.MandatoryEnd]...), tl...)
 					for _, tg := range targets {
